@@ -102,7 +102,7 @@ func runC01(c *Ctx) {
 		for _, s := range []site{
 			{"core:(*StateProcessor).Process", `StateProcessor#0\.config`, `Block#0\.Header\(\)\.Number`, ""},
 			{"opt/miner:(*worker).commitNewWork", `.*\.config`, `.*\.Number`, ""},
-			{"core:GenerateChain$1", `fv:config`, `.*\.header\.Number`, ""},
+			{"core:GenerateChain$1", `fv:[\w#]+`, `.*\.header\.Number`, ""},
 		} {
 			var fn *ssa.Function
 			if strings.HasSuffix(s.fn, "$1") {
